@@ -19,17 +19,30 @@
 //       t with the same value.
 //   (4) per value: copy-construction and copy-assignment compare == to the source, and mutating the copy (and,
 //       separately, the source) at every depth leaves the other side's serialisation unchanged.
+//
+// Round 2 (harness/C04_r2.hh, included at the end): sections assign, compare, ctors, history, context, ops, ints, wide -
+// assignment over non-fresh destinations for all ordered pairs/triples, the equality relation on all pairs and against
+// native types, every constructor overload, call histories and calling contexts, mutation histories against a container
+// model, boundary integers/floats, large values; plus the two other parse entry points (check_entry_points).
 #include <float.h>
 #include <math.h>
 #include <stdlib.h>
 #include <string.h>
 
+#include <algorithm>
+#include <compare>
+#include <functional>
+#include <limits>
+#include <memory>
+#include <set>
+#include <unordered_map>
 #include <string>
 #include <vector>
 
 #include "C04_jsonref.hh"
 #include "JSON.hh"
 #include "vf.hh"
+#include <sys/wait.h>
 
 using namespace phosg;
 using jref::Val;
@@ -222,12 +235,47 @@ void check_copy(vf::Run& r, const Val& v, const JSON& j) {
 struct Ctx {
   FILE* dat = nullptr;
   uint32_t option_mask = 63;  // option sets enumerated: every o with (o & ~option_mask) == 0
+  bool entry_points = false;  // also parse every text through parse(const char*, size) and parse(StringReader&)
 };
 
+// The two other parse entry points must read the same value from the same text (class "rare overloads"):
+//   parse(const char*, size)  on an exact-size heap block without terminator (ASan red zones on both sides)
+//   parse(StringReader&)      on a partly consumed reader: "[0] " + t + " 7"; the value is read at offset 4 and the
+//                             documented "does not throw if there's extra data" lets a second parse() read the 7
+std::string check_entry_points(const std::string& t, const Val& v, bool strict) {
+  {
+    std::unique_ptr<char[]> blk(new char[t.size()]);
+    memcpy(blk.get(), t.data(), t.size());
+    try {
+      JSON a = JSON::parse(blk.get(), t.size(), strict);
+      std::string d = jref::differs(a, v, FTOL, true);
+      if (!d.empty()) return "parse(const char*, size) read a different value (" + d + "): " + a.serialize(SORT);
+    } catch (const std::exception& e) {
+      return std::string("parse(const char*, size) threw ") + e.what();
+    }
+  }
+  {
+    const std::string whole = "[0] " + t + " 7";
+    StringReader sr(whole);
+    try {
+      JSON first = JSON::parse(sr, strict);
+      if (!(first.is_list() && first.size() == 1)) return "parse(StringReader&) misread the leading [0]";
+      JSON a = JSON::parse(sr, strict);
+      std::string d = jref::differs(a, v, FTOL, true);
+      if (!d.empty()) return "parse(StringReader&) on a partly consumed reader read a different value (" + d + "): " + a.serialize(SORT);
+      JSON last = JSON::parse(sr, strict);
+      if (!(last.is_int() && last.as_int() == 7)) return "parse(StringReader&) did not leave the reader at the end of the value (next value read as " + last.serialize() + ")";
+    } catch (const std::exception& e) {
+      return std::string("parse(StringReader&) on a partly consumed reader threw ") + e.what();
+    }
+  }
+  return "";
+}
+
 // every oracle for one value
-void check_value(vf::Run& r, const Val& v, Ctx& cx) {
-  if (r.wants_desc()) r.desc("value " + show_val(v) + vf::fmt(" x %d option sets", 1 << __builtin_popcount(cx.option_mask)));
-  JSON j = build(v);
+void check_value(vf::Run& r, const Val& v, Ctx& cx, const JSON* prebuilt = nullptr, const char* route = "") {
+  if (r.wants_desc()) r.desc(std::string(route) + "value " + show_val(v) + vf::fmt(" x %d option sets", 1 << __builtin_popcount(cx.option_mask)));
+  JSON j = prebuilt ? JSON(*prebuilt) : build(v);
   r.nontriv();
   const bool floatfree = !v.has_float();
   bool failed = false;
@@ -258,6 +306,12 @@ void check_value(vf::Run& r, const Val& v, Ctx& cx) {
       std::string d = jref::differs(p.value, v, FTOL, true);
       if (!d.empty()) fail("roundtrip:wrong-value:" + d, t, "parsed back as " + brief(p.value.serialize(SORT)) + (p.value.is_int() ? " (int)" : p.value.is_float() ? " (float)" : ""));
       else if (floatfree && (!(p.value == j) || !(j == p.value))) fail("roundtrip:operator==-disagrees", t, "structurally equal but JSON::operator== says different");
+      else if (cx.entry_points) {
+        r.transitions += 4;
+        std::string e = check_entry_points(t, v, false);
+        if (e.empty() && !(o & NONSTANDARD)) e = check_entry_points(t, v, true);
+        if (!e.empty()) fail("roundtrip:entry-points-disagree", t, e);
+      }
     }
     // (2) re-serialisation with sorted keys is a fixed point
     {
@@ -414,6 +468,7 @@ TreeSpace make_space() {
 
 VF_SECTION(atoms, 8, 8, 120) {
   Ctx cx;
+  cx.entry_points = true;
   cx.dat = jref::dat_open(r.section, r.shard);
   r.note("JSON::serialize/parse");
   std::vector<Val> atoms = all_atoms();
@@ -436,6 +491,7 @@ VF_SECTION(atoms, 8, 8, 120) {
 
 VF_SECTION(trees, 16, 16, 120) {
   Ctx cx;
+  cx.entry_points = true;
   cx.dat = jref::dat_open(r.section, r.shard);
   r.note("JSON::serialize/parse");
   TreeSpace ts = make_space();
@@ -475,7 +531,51 @@ VF_SECTION(strings, 16, 16, 120) {
       }
     }
   }
+  // round-2: longer strings over the bytes at which the three escape modes change behaviour
+  static const char kEdge[] = {0x00, 0x01, 0x08, 0x0a, 0x1f, 0x20, '"', '/', '\\', '0', 'A', 'f', 'u', 'x', 0x7e, 0x7f, (char)0x80, (char)0xc3, (char)0xa9, (char)0xff};
+  const size_t ne = sizeof(kEdge);
+  for (int len = 3; len <= (r.thorough() ? 4 : 3); len++) {
+    uint64_t cnt = 1;
+    for (int k = 0; k < len; k++) cnt *= ne;
+    cx.option_mask = string_bits;
+    for (int as_key = 0; as_key < 2; as_key++)
+      for (uint64_t x = 0; x < cnt; x++) {
+        if (!r.take()) continue;
+        std::string s;
+        uint64_t y = x;
+        for (int k = 0; k < len; k++) { s.push_back(kEdge[y % ne]); y /= ne; }
+        if (as_key) check_value(r, Val::dict({{s, Val::str(s)}}), cx);
+        else check_value(r, Val::list({Val::str(s), Val::str(s)}), cx);
+      }
+  }
+  // JSON::escape_string() called directly (default and explicit mode argument): quoted, it must parse back to the string
+  for (int len = 0; len <= 2; len++) {
+    uint32_t cnt = len == 0 ? 1 : len == 1 ? 256 : 65536;
+    for (uint32_t x = 0; x < cnt; x++) {
+      if (!r.take()) continue;
+      std::string s;
+      if (len >= 1) s.push_back((char)(x & 0xFF));
+      if (len == 2) s.push_back((char)(x >> 8));
+      if (r.wants_desc()) r.desc("escape_string(" + vf::show(s) + ") in the three modes");
+      r.nontriv();
+      bool bad = false;
+      const JSON js(s);
+      for (int mode = 0; mode < 4; mode++) {
+        std::string e = mode == 3 ? JSON::escape_string(s) : JSON::escape_string(s, (JSON::StringEscapeMode)mode);
+        uint32_t o = mode == 1 ? (uint32_t)JSON::SerializeOption::HEX_ESCAPE_CODES : mode == 2 ? (uint32_t)JSON::SerializeOption::ESCAPE_CONTROLS_ONLY : 0u;
+        Parsed p = try_parse("\"" + e + "\"", false);
+        r.transitions += 2;
+        if (!p.ok || !p.value.is_string() || p.value.as_string() != s || "\"" + e + "\"" != js.serialize(o)) {
+          bad = true;
+          r.fail("escape_string:does-not-round-trip", [&] { return vf::fmt("escape_string(%s, mode %d) = %s: ", vf::show(s).c_str(), mode, vf::show(e).c_str()) + (p.ok ? "parses as " + brief(p.value.serialize(SORT)) + " / differs from serialize()" : "rejected: " + p.exc); });
+        }
+      }
+      if (!bad) r.ok("escape_string:round-trips");
+    }
+  }
   if (cx.dat) fclose(cx.dat);
+  r.notes.push_back(vf::fmt("round-2: plus every %s string over a 20-byte boundary alphabet as [s, s] and as {s: s} x 16 option sets; JSON::escape_string (default + 3 explicit modes) on every string of length <= 2",
+      r.thorough() ? "3- and 4-byte" : "3-byte"));
   r.bound = r.thorough() ? "every byte string of length 0, 1 and 2 (65 793 strings) as a value and as a dictionary key; x 64 option sets"
                          : "every byte string of length 0, 1 and 2 (65 793 strings) as a value and as a dictionary key; length <= 1 x 64 option sets, length 2 x the 16 sets over {FORMAT, SORT_DICT_KEYS, HEX_ESCAPE_CODES, ESCAPE_CONTROLS_ONLY}";
 }
@@ -496,12 +596,36 @@ VF_SECTION(floats, 8, 8, 120) {
         if (!isnormal(d)) { r.ok("skipped:not-a-normal-double"); continue; }
         check_value(r, Val::real(d), cx);
       }
+  // round-2: the doubles next to every power of ten (where %g changes digit count / form) and every power of two
+  uint64_t n2 = 0;
+  for (int pass = 0; pass < 2; pass++) {
+    int lo = pass == 0 ? -307 : -1022, hi = pass == 0 ? 308 : 1023;
+    for (int e = lo; e <= hi; e++)
+      for (int nb = -1; nb <= 1; nb++)
+        for (int neg = 0; neg < 2; neg++) {
+          n2++;
+          if (!r.take()) continue;
+          double c = pass == 0 ? strtod(("1e" + std::to_string(e)).c_str(), nullptr) : ldexp(1.0, e);
+          double d = nb < 0 ? nextafter(c, 0.0) : nb > 0 ? nextafter(c, INFINITY) : c;
+          if (neg) d = -d;
+          if (!isnormal(d)) { r.ok("skipped:not-a-normal-double"); continue; }
+          {
+            char six[64];
+            snprintf(six, sizeof(six), "%.6g", d);
+            // 2^-1022 prints as 2.22507e-308, which is below DBL_MIN: the six-digit value is a denormal (don't-care)
+            if (!isnormal(strtod(six, nullptr))) { r.ok("skipped:six-digit-rounding-is-not-a-normal-double"); continue; }
+          }
+          check_value(r, Val::real(d), cx);
+        }
+  }
   if (cx.dat) fclose(cx.dat);
-  r.bound = vf::fmt("%llu floats: m x 10^e, m in {1, 1.5, 2, 9.99999, 1.00001, 1.23456, 1.234567, 123456, 999999.5}, e in [-300, 300], both signs; x 64 option sets", (unsigned long long)n);
+  r.bound = vf::fmt("%llu floats: m x 10^e, m in {1, 1.5, 2, 9.99999, 1.00001, 1.23456, 1.234567, 123456, 999999.5}, e in [-300, 300], both signs; plus %llu: 10^e (e in [-307, 308]) and 2^e (e in [-1022, 1023]) each with both "
+                    "neighbouring doubles, both signs; x 64 option sets", (unsigned long long)n, (unsigned long long)n2);
 }
 
 VF_SECTION(deep, 9, 9, 180) {
   Ctx cx;
+  cx.entry_points = true;
   cx.dat = jref::dat_open(r.section, r.shard);
   r.note("JSON::serialize/parse (200-deep)");
   std::vector<Val> leaves = {Val::list(), Val::dict(), Val::integer(-256), Val::real(1e20), Val::str("\xff\n"), Val::null()};
@@ -520,5 +644,7 @@ VF_SECTION(deep, 9, 9, 180) {
   if (cx.dat) fclose(cx.dat);
   r.bound = "200-deep nested lists, dictionaries and alternating list/dictionary chains around 6 different innermost values; x 64 option sets";
 }
+
+#include "C04_r2.hh"
 
 VF_MAIN()
